@@ -339,7 +339,8 @@ class GeoBoxBase:
         return shape_((ny, nx)), affine
 
     def compute_zoom_out(self, factor: float) -> Tuple[Shape2d, Affine]:
-        ny, nx = (max(1, math.ceil(s / factor)) for s in self.shape)
+        # at least one pixel per side, unless there were none to begin with
+        ny, nx = (max(1, math.ceil(s / factor)) if s > 0 else 0 for s in self.shape)
         A = self._affine * Affine.scale(factor, factor)
         return (shape_((ny, nx)), A)
 
